@@ -258,7 +258,15 @@ def live_a_life(da, k):
     return da
 
 
-def build_dataarray(fg, dg, specs, dims, dtype="float64", winds=None, lived=None):
+def coord_dtypes():
+    """Strategy for the `cdtype` field: how the freq/dir coordinates are stored (values are those of the grid spec,
+    rounded to the storage type): float64 (default), float32 (as read from many files), integer direction labels."""
+    from hypothesis import strategies as st
+
+    return st.sampled_from(["f64", "f64", "f64", "f32", "int-dir", "f32-dir"])
+
+
+def build_dataarray(fg, dg, specs, dims, dtype="float64", winds=None, lived=None, cdtype=None):
     """DataArray (*dims, freq, dir) in C order. `specs`: one spectrum spec per position (row-major)."""
     import pandas as pd
     import xarray as xr
@@ -292,6 +300,12 @@ def build_dataarray(fg, dg, specs, dims, dtype="float64", winds=None, lived=None
         data = arr.reshape(shape + [nf, nd])
     else:
         data = arr.reshape(shape + [nf])
+    if cdtype in ("f32",):
+        coords["freq"] = f.astype("float32")
+    if d is not None and cdtype in ("f32", "f32-dir"):
+        coords["dir"] = d.astype("float32")
+    if d is not None and cdtype == "int-dir" and np.all(d == np.round(d)):
+        coords["dir"] = d.astype("int64")
     da = xr.DataArray(np.ascontiguousarray(data), coords=coords, dims=names, name="efth")
     if lived is not None:
         live_a_life(da, lived)
